@@ -99,6 +99,9 @@ func trigClass(t string) string {
 	if strings.HasPrefix(t, "remove@") {
 		return "remove"
 	}
+	if strings.HasSuffix(t, "+ping") {
+		return "ping(after " + strings.TrimSuffix(t, "+ping") + ")"
+	}
 	return t
 }
 
